@@ -1772,6 +1772,10 @@ pub struct GraphEngine {
     index_locks: Vec<RwLock<()>>,
     /// Striped locks serialising the read-modify-write of a node's edge lists.
     adjacency_locks: Vec<RwLock<()>>,
+    /// Striped per-node locks: edge creation holds its endpoints shared, node deletion exclusive.
+    node_locks: Vec<RwLock<()>>,
+    /// Striped per-edge locks: update and deletion of one edge record exclude each other.
+    edge_locks: Vec<RwLock<()>>,
     /// Whether the label index has been initialized (for lazy auto-creation).
     label_index_initialized: AtomicBool,
     /// Whether the edge type index has been initialized (for lazy auto-creation).
@@ -1826,6 +1830,8 @@ impl GraphEngine {
             geo_indexes: RwLock::new(HashMap::new()),
             index_locks: create_index_locks(lock_count),
             adjacency_locks: create_index_locks(lock_count),
+            node_locks: create_index_locks(lock_count),
+            edge_locks: create_index_locks(lock_count),
             label_index_initialized: AtomicBool::new(false),
             edge_type_index_initialized: AtomicBool::new(false),
             constraints: RwLock::new(HashMap::new()),
@@ -1897,6 +1903,8 @@ impl GraphEngine {
             geo_indexes: RwLock::new(HashMap::new()),
             index_locks: create_index_locks(config.index_lock_count),
             adjacency_locks: create_index_locks(config.index_lock_count.max(1)),
+            node_locks: create_index_locks(config.index_lock_count.max(1)),
+            edge_locks: create_index_locks(config.index_lock_count.max(1)),
             label_index_initialized: AtomicBool::new(label_index_exists),
             edge_type_index_initialized: AtomicBool::new(edge_type_index_exists),
             constraints: RwLock::new(constraints),
@@ -1948,6 +1956,8 @@ impl GraphEngine {
             geo_indexes: RwLock::new(HashMap::new()),
             index_locks: create_index_locks(config.index_lock_count),
             adjacency_locks: create_index_locks(config.index_lock_count.max(1)),
+            node_locks: create_index_locks(config.index_lock_count.max(1)),
+            edge_locks: create_index_locks(config.index_lock_count.max(1)),
             label_index_initialized: AtomicBool::new(label_index_exists),
             edge_type_index_initialized: AtomicBool::new(edge_type_index_exists),
             constraints: RwLock::new(constraints),
@@ -3318,6 +3328,11 @@ impl GraphEngine {
         // Ensure edge type index exists (lazy init on first edge creation)
         self.ensure_edge_type_index();
 
+        // Hold both endpoints shared (in stripe order) so that delete_node cannot run in between
+        let (s1, s2) = (self.lock_index(from), self.lock_index(to));
+        let _node_guard_a = self.node_locks[s1.min(s2)].read();
+        let _node_guard_b = (s1 != s2).then(|| self.node_locks[s1.max(s2)].read());
+
         // Verify both nodes exist
         if !self.node_exists(from) {
             return Err(GraphError::NodeNotFound(from));
@@ -3759,6 +3774,8 @@ impl GraphEngine {
     /// Returns `EdgeNotFound` if the edge doesn't exist.
     #[allow(clippy::needless_pass_by_value)] // ownership avoids caller clones
     pub fn update_edge(&self, id: u64, properties: HashMap<String, PropertyValue>) -> Result<()> {
+        let _edge_guard = self.edge_locks[self.lock_index(id)].write();
+
         // Get old edge for index maintenance
         let old_edge = self.get_edge(id)?;
 
@@ -6432,6 +6449,7 @@ impl GraphEngine {
     /// # Errors
     /// Returns `EdgeNotFound` if the edge doesn't exist, or a storage error on failure.
     pub fn delete_edge(&self, edge_id: u64) -> Result<()> {
+        let _edge_guard = self.edge_locks[self.lock_index(edge_id)].write();
         let edge = self.get_edge(edge_id)?;
 
         // Unindex edge properties
@@ -6477,6 +6495,8 @@ impl GraphEngine {
     /// Returns `NodeNotFound` if the node doesn't exist, or `PartialDeletionError`
     /// if some connected edges fail to delete.
     pub fn delete_node(&self, id: u64) -> Result<()> {
+        let _node_guard = self.node_locks[self.lock_index(id)].write();
+
         // Get node for index cleanup before deletion
         let node = self.get_node(id)?;
 
@@ -6496,6 +6516,7 @@ impl GraphEngine {
 
             edges_to_delete.par_iter().for_each(|edge_id| {
                 let result: Result<()> = (|| {
+                    let _edge_guard = self.edge_locks[self.lock_index(*edge_id)].write();
                     let edge = self.get_edge(*edge_id)?;
                     // Unindex edge properties
                     self.unindex_edge_properties(*edge_id, &edge.edge_type, &edge.properties);
@@ -6550,6 +6571,7 @@ impl GraphEngine {
             }
         } else {
             for edge_id in all_edge_ids {
+                let _edge_guard = self.edge_locks[self.lock_index(edge_id)].write();
                 if let Ok(edge) = self.get_edge(edge_id) {
                     // Unindex edge properties
                     self.unindex_edge_properties(edge_id, &edge.edge_type, &edge.properties);
